@@ -135,6 +135,8 @@ class C01(WrapHarness):
         out.append(dict(base, gen='sym1', n=4 if q else 5, fn='wrap', le='CRLF'))
         out.append(dict(base, gen='sym1', n=3 if q else 4, fn='wrap', ind='both', imax=1))
         out.append(dict(base, gen='sym1', n=3 if q else 4, fn='wrap', ind='both', imax=1, split='C1'))
+        out.append(dict(base, gen='words', nwords=3, wl=1 if q else 2, maxgap=2, lead=True, trail=True, fn='wrap'))
+        out.append(dict(base, gen='words', nwords=3, wl=1, maxgap=2, fn='wrap', algo='O', wmax=1 << 16))
         out.append(dict(base, gen='sym1', n=3 if q else 4, fn='wrap', split='C3'))
         out.append(dict(base, gen='sym1', n=3 if q else 4, fn='wrap', split='C3', algo='O', ind='si', imax=1))
         out.append(dict(base, gen='sym1', n=3 if q else 4, fn='fill', split='C2', bw=True))
